@@ -25,13 +25,14 @@ func init() {
 		Assumptions: []string{"errors are compared by presence and position, not by text", "CRLF conversion is applied only to line terminators of well-formed text (fields contain no CR/LF; Newick names free of CR/LF)"},
 		MinEvents:   map[string]int64{"schedules": 5000, "boundary_inside_line": 1000, "file_plain": 60, "file_gz": 60, "file_missing": 6, "crlf_pairs": 100, "partitions": 1000},
 		Units: []Unit{
-			{Name: "schedules", QShards: 4, TShards: 12, Run: c06Schedules},
+			{Name: "schedules", QShards: 8, TShards: 12, Run: c06Schedules},
 			{Name: "partitions", QShards: 2, TShards: 8, Run: c06Partitions},
 			{Name: "large", QShards: 2, TShards: 6, Run: c06Large},
 			{Name: "crlf", TShards: 2, Run: c06CRLF},
 			{Name: "files", TShards: 4, Run: c06Files},
-			{Name: "huge", QShards: 6, TShards: 16, Run: c06Huge},
+			{Name: "huge", QShards: 16, TShards: 16, Run: c06Huge},
 			{Name: "histories", QShards: 2, TShards: 6, Run: codecHistories(c06Formats...)},
+			{Name: "readerzoo", QShards: 2, TShards: 6, Run: c06ReaderZoo},
 			{Name: "parallel", Race: true, TShards: 2, Run: c06Parallel},
 			{Name: "prefixes", Run: func(c *Ctx) {
 				for i, f := range c06Formats {
@@ -617,11 +618,27 @@ func c06Huge(c *Ctx) {
 		exps = []int{17, 18, 19, 20, 21, 22, 23, 24, 25}
 		deltas = []int{-3, -2, -1, 0, 1, 2}
 	}
+	// around 4 KiB, 8 KiB and 64 KiB every length from 2^e - 40 to 2^e + 3: the fixed parts of a line (a '>' or '@',
+	// the other SAM / BED fields, the terminator — one byte or two) shift where the long field ends relative
+	// to a buffer of that size, and EVERY alignment of the line end with the buffer end must be met
+	type ed struct{ e, d int }
+	var eds []ed
+	for _, e := range []int{12, 13, 16} {
+		for d := -40; d <= 3; d++ {
+			eds = append(eds, ed{e, d})
+		}
+	}
+	for _, e := range exps {
+		for _, d := range deltas {
+			eds = append(eds, ed{e, d})
+		}
+	}
 	idx := int64(0)
 	for _, f := range c06Formats {
 		cd := codecByName(f)
-		for _, e := range exps {
-			for _, d := range deltas {
+		for _, x := range eds {
+			{
+				e, d := x.e, x.d
 				c.Case(idx, func(k *K) {
 					r := k.Rand()
 					n := 1<<e + d
